@@ -54,7 +54,9 @@ def verify_lanczos(ctx, A, v, v0, m, out, ncalls, detail, s=False):
     kd = kr.krylov_dim(res)
     if k < m:
         # early return only if the Krylov space is exhausted at k
-        rk = res[k - 1] if k - 1 < len(res) else 0.0
+        # the space must be exhausted AT OR BEFORE k (the iteration may have continued past a numerically exhausted space -- residual ~3e-13, just above its
+        # absolute breakdown threshold -- into rounding noise and stopped a few steps later)
+        rk = min(res[:k]) if k - 1 < len(res) else 0.0
         ctx.close('lanczos.early-return-justified', rk, 1e-8, f'returned k={k} < m={m} although the residual after {k} vectors is not ~0', detail, s)
         ctx.event('lanczos_early_return')
     margin = min(res[:m - 1]) if m > 1 and len(res) >= m - 1 else (np.inf if m == 1 else 0.0)
@@ -109,7 +111,9 @@ def verify_arnoldi(ctx, A, v, v0, m, out, ncalls, detail, s=False):
     res, Qref = kr.krylov_residuals(A, v0, m + 1, basis=True)
     kd = kr.krylov_dim(res)
     if k < m:
-        rk = res[k - 1] if k - 1 < len(res) else 0.0
+        # the space must be exhausted AT OR BEFORE k (the iteration may have continued past a numerically exhausted space -- residual ~3e-13, just above its
+        # absolute breakdown threshold -- into rounding noise and stopped a few steps later)
+        rk = min(res[:k]) if k - 1 < len(res) else 0.0
         ctx.close('arnoldi.early-return-justified', rk, 1e-8, f'returned k={k} < m={m} although the Krylov space is not exhausted', detail, s)
         ctx.event('arnoldi_early_return')
     margin = min(res[:m - 1]) if m > 1 and len(res) >= m - 1 else (np.inf if m == 1 else 0.0)
